@@ -108,6 +108,17 @@ pub fn decode_weight(wmode: u8, r: u8) -> f64 {
         // apart are not (Louvain's undirected gain doubles the weight: one step there is 0.8 tol)
         // (the shape edges, r = 3, 6, 9, get k = 1, 2, 3)
         10 => 1.0 + (((r / 3) % 8) as f64) * 0.4 * if (r / 24) % 2 == 1 { 1e-7 } else { 1e-10 },
+        // mixed magnitudes in one graph: one weight in four is (k+1) * 2^-70, the others k/4. A tiny
+        // weight added to a distance of order one is absorbed (d + w == d) although it is positive;
+        // the sum of the tiny weights along any path stays below half an ulp of 0.25, so every
+        // distance is the same float whatever the order of the additions
+        11 => {
+            if r % 4 == 0 {
+                (((r / 4) % 8) as f64 + 1.0) * (2.0f64).powi(-70)
+            } else {
+                ((r % 32) as f64 + 1.0) / 4.0
+            }
+        }
         // signed weights (trust / distrust networks): sums can cancel exactly
         _ => [1.0, -1.0, 0.5, -0.5, 2.0, -2.0, 1.5, 1.0][(r % 8) as usize],
     }
